@@ -53,10 +53,11 @@ static json Project(const RSModel& m) {
 static std::unique_ptr<RSModel> Reload(const RSModel& m, JSON* doc = nullptr) { JSON j = m; if (doc) *doc = j; auto c = std::make_unique<RSModel>(); j.get_to(*c); return c; }
 
 struct Live { std::unique_ptr<RSModel> m; };
-static void StartModel(RSModel& m, bool withStruct, bool late) {
+static void StartModel(RSModel& m, bool withStruct, bool late, bool func) {
   g_uids = { 1 }; m.Emplace(CstType::base);
   if (withStruct) { g_uids = { 2 }; m.Emplace(CstType::structured, "ℬ(X1×X1)"); }
-  g_uids = { 3 }; m.Emplace(CstType::term, late ? "X2" : "X1"); g_uids = { 4 }; m.Emplace(CstType::term, "D1");
+  if (func) { g_uids = { 2 }; m.Emplace(CstType::function, "[a∈ℬ(X1)] a∪X1"); }
+  g_uids = { 3 }; m.Emplace(CstType::term, late ? "X2" : func ? "F1[X1]" : "X1"); g_uids = { 4 }; m.Emplace(CstType::term, "D1");
   m.Values().AddBasicElement(1, "e1"); m.Values().AddBasicElement(1, "e2");
   if (withStruct) (void)m.Values().SetStructureData(2, Factory::Set({ Factory::TupleV({ 1, 1 }), Factory::TupleV({ 1, 2 }) }));
 }
@@ -76,7 +77,7 @@ static void Apply(RSModel& m, const json& op) {
 
 static void Handle(const json& c, vh::Report& r) {
   auto m = std::make_unique<RSModel>();
-  StartModel(*m, c["preset"] == "struct", c["preset"] == "late");
+  StartModel(*m, c["preset"] == "struct", c["preset"] == "late", c["preset"] == "func");
   std::string last;
   for (const auto& op : c["hist"]) { Apply(*m, op); last = op["op"]; }
   const json wit = { {"preset", c["preset"]}, {"hist", c["hist"]} };
